@@ -912,6 +912,8 @@ var engineCorpus = []corpusCase{
 		cfg: eCfg{FlagCount: 1}, inputs: []string{strings.Repeat("a", 300), "", "1", "0"}},
 	{name: "reset-on-empty-blank", nodes: [][3]string{{"root", "HALT; INCMP foo 1", "root"}, {"foo", "LOAD aa 10; HALT; INCMP _ 0", "foo"}, {"_catch", "HALT; INCMP _ *", "catch"}},
 		fn: map[string][]eFres{"aa": st1("v")}, cfg: eCfg{FlagCount: 1, ResetEmpty: true}, inputs: []string{"", "1", " ", "\t", "0", "1", "", "1"}},
+	{name: "stale-readin", nodes: [][3]string{{"root", "HALT; INCMP foo 1", "root"}, {"foo", "HALT; INCMP _ 0", "foo"}, {"end1", "MOUT bye 0", "end"}, {"_catch", "HALT; MOVE end1", "catch"}},
+		cfg: eCfg{FlagCount: 1}, inputs: []string{"", "x", "y", "z"}},
 	{name: "first-terminate", nodes: [][3]string{{"root", "HALT; INCMP foo 1", "root"}, {"foo", "HALT; INCMP _ 0", "foo"}, {"_catch", "HALT; INCMP _ *", "catch"}},
 		cfg: eCfg{FlagCount: 1, First: []eFres{{Content: "hello"}, {Content: "blocked", Set: []uint32{6}}, {Content: "again"}}}, inputs: []string{"", "1", "0", "!bad", "1"}},
 	{name: "first-long-exit", nodes: [][3]string{{"root", "HALT; INCMP foo 1", "root"}, {"foo", "HALT; INCMP _ 0", "foo"}, {"_catch", "HALT; INCMP _ *", "catch"}},
